@@ -305,6 +305,9 @@ static bool interp() {
       g_userConn.reset();
     } else if (op == "advance") {
       vi::advance(atoll(w[1].c_str()));
+    } else if (op == "script" && w.size() >= 2 && w[1] == "poll") {
+      // script poll EINTR…: the next poll/epoll_wait calls are interrupted (C11)
+      for (size_t i = 2; i < w.size(); ++i) if (w[i] == "EINTR") ++vi::pollEintr();
     } else if (op == "script" && w.size() >= 2) {
       std::deque<std::string>& q = w[1] == "connect" ? g_connectScript : (w[1] == "soerr" ? g_soerrScript : g_selfScript);
       for (size_t i = 2; i < w.size(); ++i) q.push_back(w[i]);
